@@ -59,7 +59,9 @@ def handle (args : List String) : String :=
       let den : Rat := ratOfInt (2^k : Nat)
       let ea := (e.map fun g => (⟨ratOfInt g.re / den, ratOfInt g.im / den⟩ : QI)).toArray
       let ψ : Nat → Nat → QI := fun a b => getQ ea (a * dB + b)
-      return (concPureRadicand dA dB ψ).toStr
+      let x := concPureRadicand dA dB ψ
+      -- `tmp2 = np.vdot(..).real`: the radicand is real; the (possibly clamped) argument of `np.sqrt` is printed
+      return QI.ratStr (concPureSqrtArg x.re) ++ "," ++ QI.ratStr x.im
   | ["pur", m, num, ents] => Id.run do
       let some m := m.toNat? | return "bad-op"
       let some num := num.toNat? | return "bad-op"
